@@ -46,11 +46,15 @@ RULE = ('Hypothesis draws a static configuration (one of 24 layouts: 0-4 '
         'LOG/INTEGER/DISCRETE/BOOL parameters; strategy eagle|random; batch '
         '1|5|25; max_evaluations 1..40*batch (1..40 loop steps); count 1..min(8, '
         'evaluations); n_parallel None|1|2; use_fori; 0..12 prior trials) and '
-        '2-6 sub-cases (seed, score function from the grammar: weighted '
+        '2-4 (quick) / 2-8 (thorough) sub-cases (seed, score function from the grammar: weighted '
         'negative squared distance to an interior/corner target + weighted '
         'categorical indicators, optional floor-plateaus, optional NaN/-inf '
         'region, optional optimum placed on a prior point). evaluations = '
-        'optimiser runs (3 per sub-case: seed, other seed, seed again). '
+        'optimiser runs (3 per sub-case: seed, other seed, seed again; +1 on '
+        'a rebuilt optimiser in 1 of 4 cases). 5 of 6 prior cases and 7 of 8 '
+        'random-strategy cases on padded layouts are steered away from the '
+        'triggers of the known findings; the cases that stay inside are '
+        'counted in class known_trigger:*. '
         'non-trivial sub-case = layout has both feature kinds or zero of one '
         'kind, and (count>1 or priors present). distinct = SHA-1 of (static '
         'configuration, sub-case).')
@@ -65,7 +69,11 @@ ASSUMPTIONS = [
     'prior trials are built from harness-mapped parameter values and converted '
     'with the real converter (vb.trials_to_sorted_array); padded feature '
     'dimensions are computed from the PaddingType docs',
-    'equinox.filter_jit / XLA CPU compile the optimiser faithfully',
+    'equinox.filter_jit / XLA CPU compile the optimiser faithfully; the '
+    'ordered io_callback in the score function is executed exactly once per '
+    'score call of the optimiser (it returns the logged value itself)',
+    'count <= ceil(max_evaluations / batch) * batch by construction; when the '
+    'log shows fewer evaluations than count the sub-case is inconclusive',
 ]
 
 # Known findings on the unchanged tree (see known_findings.d/C19.jsonl).  When
@@ -607,7 +615,7 @@ def families(tier):
       core.Family(
           'optimize', check,
           strategy=strategy_quick if tier == 'quick' else strategy_thorough,
-          budget={'quick': 144, 'thorough': 1600},
+          budget={'quick': 144, 'thorough': 2400},
           shards={'quick': 16, 'thorough': 32},
           required_classes=(
               'strategy_eagle', 'strategy_random', 'padded_dims',
